@@ -52,6 +52,8 @@ def make_strategy(script: dict):
 
         def _qty(self):
             s = self.s
+            if s.get('fixed_qty'):
+                return float(s['fixed_qty'])
             frac = s.get('size_frac', 0.2)
             if self.exchange_type == 'spot':
                 cap = self.balance
@@ -197,6 +199,10 @@ def make_strategy(script: dict):
                 rows = [(q, self._px(price * (1 - sign * d)))]
             elif style == 'stop':
                 rows = [(q, self._px(price * (1 + sign * d)))]
+            elif style == 'near':
+                # around the 0.015 % market band, on either side
+                off = [0.0, 0.0001, 0.00015, 0.0002, 0.0003, 0.001][int(self.rnd('noff') * 6)]
+                rows = [(q, price * (1 + (1 if self.rnd('nsg') < 0.5 else -1) * off))]
             else:  # ladder: 2-3 points on the limit side, optionally first at market
                 n = 2 + int(self.rnd('n') * 2)
                 parts = self._split(q, n)
@@ -363,6 +369,12 @@ def make_strategy(script: dict):
             try:
                 s = self.s
                 kinds = s.get('update_kinds') or []
+                if s.get('add_at') and self.index in s['add_at']:
+                    # add to the position with a market order (re-declared entry)
+                    if self.is_long:
+                        self.buy = [(self._qty(), self.price)]
+                    else:
+                        self.sell = [(self._qty(), self.price)]
                 if kinds and self.rnd('upd') < s.get('p_update', 0.0):
                     kind = kinds[int(self.rnd('updk') * len(kinds))]
                     sign = 1 if self.is_long else -1
